@@ -122,6 +122,9 @@ type phiInfo struct {
 	// relevant: non-phi values whose nil-ness, once tested on the path, decides an incoming edge of
 	// a tracked nil-able phi
 	relevant map[ssa.Value]bool
+	// shared: some condition value decides more than one branch (`isNew := x == nil; if isNew {…};
+	// …; if isNew {…}`): its outcome is remembered along the path
+	shared bool
 }
 
 var phiCache = map[*ssa.Function]*phiInfo{}
@@ -226,6 +229,41 @@ func trackedPhis(fn *ssa.Function) *phiInfo {
 			if _, isPhi := v.(*ssa.Phi); !isPhi && !IsNilConst(v) {
 				out.relevant[v] = true
 			}
+		}
+	}
+	// a condition value (not a phi, not a constant) that two or more branches test: the second
+	// test has the outcome of the first as long as the value is not recomputed
+	uses := map[ssa.Value]int{}
+	for _, b := range fn.Blocks {
+		if len(b.Instrs) == 0 {
+			continue
+		}
+		ifi, ok := b.Instrs[len(b.Instrs)-1].(*ssa.If)
+		if !ok {
+			continue
+		}
+		c := ifi.Cond
+		for {
+			if u, ok := c.(*ssa.UnOp); ok && u.Op == token.NOT {
+				c = u.X
+				continue
+			}
+			break
+		}
+		switch c.(type) {
+		case *ssa.Phi, *ssa.Const:
+			continue
+		}
+		uses[c]++
+	}
+	for c, n := range uses {
+		if n >= 2 {
+			if _, _, isNil := nilTest(c); isNil {
+				// nil tests are remembered through the tested value when that is relevant;
+				// remembering the comparison itself as well is harmless
+			}
+			out.relevant[c] = true
+			out.shared = true
 		}
 	}
 	phiCache[fn] = out
@@ -519,13 +557,11 @@ func condValue(v ssa.Value, env string, tracked *phiInfo) int {
 		return 0
 	}
 	if tracked != nil && tracked.relevant[v] {
-		if _, isBin := v.(*ssa.BinOp); !isBin {
-			if b, ok := envGet(env, "N:"+v.Name()); ok {
-				if b {
-					return 1
-				}
-				return 0
+		if b, ok := envGet(env, "N:"+v.Name()); ok {
+			if b {
+				return 1
 			}
+			return 0
 		}
 	}
 	switch x := v.(type) {
@@ -607,7 +643,7 @@ func Reach(fn *ssa.Function, starts []Pt, o Opts) *Reached {
 	var tracked *phiInfo
 	if !o.NoFlags {
 		tracked = trackedPhis(fn)
-		if len(tracked.phis) == 0 && len(tracked.ints) == 0 && len(o.AssumeNonNil) == 0 {
+		if len(tracked.phis) == 0 && len(tracked.ints) == 0 && len(o.AssumeNonNil) == 0 && !tracked.shared {
 			tracked = nil
 		}
 	}
@@ -671,6 +707,16 @@ func Reach(fn *ssa.Function, starts []Pt, o Opts) *Reached {
 							val = 1
 						}
 						env = envSet(env, map[string]int{"N:" + c.Name(): val})
+					}
+				} else if ph, isPhi := c.(*ssa.Phi); isPhi && tracked.phis[ph] && !nilable(ph.Type()) {
+					// a tracked flag tested directly (`for !done { … }`): it keeps the tested value
+					// until its block is entered again
+					if _, known := envGet(env, ph.Name()); !known {
+						val := 0
+						if (taken == 0) == !neg {
+							val = 1
+						}
+						env = envSet(env, map[string]int{ph.Name(): val})
 					}
 				}
 			}
